@@ -229,4 +229,14 @@ def sharePlacement (cfg : Cfg) (peers0 readonly0 shares0 : List Nat) (p2s0 : Set
       distributeHomeless mappings homeless (p2s.filter (fun e => !readonly.contains e.1))
   finalize (sdiff peers readonly) mappings
 
+/-! ### Specification side (used by the theorems of C07 and by the driver's `spread` / `holds` ops) -/
+
+/-- `s in peers_to_shares[p]` (dict lookup: the entry of key `p`; the value is a set) -/
+def Holds (E : SetMap) (p s : Nat) : Prop := s ∈ dget (E.map (fun e => (e.1, mkSet e.2))) p
+
+instance (E : SetMap) (p s : Nat) : Decidable (Holds E p s) := by unfold Holds; infer_instance
+
+/-- number of distinct servers a placement uses (`len(set(placement.values()))`) -/
+def distinctServers (res : List (Nat × Nat)) : Nat := (mkSet (res.map (·.2))).length
+
 end Tahoe.Happiness
